@@ -215,16 +215,13 @@ def opReadProgram (j : Json) : Json :=
   | .error e => jerr e
   | .ok data =>
     let env := getEnv j
-    let e := elfInit env data
     let eraw := elfParseRaw env data
+    let e := toElfError eraw
     let h := hexInit data
     let s := srecInit data
-    let rej : Bodies := { pe := fun _ => false, macho := fun _ => false, coff := fun _ => false }
-    let chain := readProgram env rej data
-    let name : String := match chain with
-      | .ok (.elf _) => "Elf" | .ok .pe => "PE" | .ok .macho => "MachO" | .ok .coff => "COFF"
-      | .ok (.hex _) => "HEX" | .ok (.srec _) => "SREC" | .ok .raw => "shellcode"
-      | .error x => "raise:" ++ x.name
+    -- `readProgram` with the PE / Mach-O / COFF bodies rejecting: the definite answer of the chain
+    let name : String :=
+      if e.isOk then "Elf" else if h.isOk then "HEX" else if s.isOk then "SREC" else "shellcode"
     Json.mkObj [("elf", Json.str (pyClass e)), ("elfraw", Json.str (pyClass eraw)),
       ("pe", Json.bool (peHeaderOK data)), ("macho", Json.bool (machoHeaderOK data)),
       ("coff", Json.bool (coffHeaderOK data)), ("hex", Json.str (pyClass h)), ("srec", Json.str (pyClass s)),
